@@ -264,7 +264,8 @@ def relayout(a, kind):
 def scales():
     """overall magnitude of an input array: mostly 1, sometimes tiny or huge (absolute tolerances such as
     np.allclose's default atol=1e-8 silently misbehave there)"""
-    return st.sampled_from([1.0, 1.0, 1.0, 1.0, 1e-4, 1e-9, 1e-12, 1e6])
+    # (1e-18 / 1e-24: totals below machine epsilon as an ABSOLUTE number, e.g. frames in W per sample)
+    return st.sampled_from([1.0, 1.0, 1.0, 1.0, 1.0, 1e-4, 1e-9, 1e-12, 1e6, 1e-18, 1e-24, 1e12])
 
 
 BIG = [63, 64, 65, 96, 100, 127, 128, 129, 160]
